@@ -227,6 +227,33 @@ def conformance(jobs):
             elif len(drifts) < 5:
                 drifts.append({"cfg": job.cfg, "header": job.execs[i][0], "cmds": job.execs[i][1], "expected": exp,
                                "observed": got.get(i, [])})
+    # schedules generated by TLC for the temporary stack list (header key `plan`): the threads of the recorded
+    # atomic steps inside the concurrent block have to start with the planned sequence
+    for job in jobs:
+        plans = {i: [int(t) for t in h["plan"].split(".") if t != ""] for i, (h, c) in enumerate(job.execs) if "plan" in h}
+        if not plans:
+            continue
+        steps, xn, inpar = {}, -1, False
+        with open(job.trace) as f:
+            for ln in f:
+                if ln.startswith('{"e":"x"'):
+                    xn += 1
+                    inpar = False
+                elif ln.startswith('{"e":"par_begin"'):
+                    inpar = True
+                elif ln.startswith('{"e":"par_end"'):
+                    inpar = False
+                elif inpar and xn in plans and ln.startswith('{"e":"at"'):
+                    e = json.loads(ln)
+                    if (e["k"] == 1 and e["o"] == 0) or e["k"] == 4:
+                        steps.setdefault(xn, []).append(e["t"])
+        for i, pl in plans.items():
+            checked += 1
+            if steps.get(i, [])[:len(pl)] == pl:
+                matched += 1
+            elif len(drifts) < 5:
+                drifts.append({"cfg": job.cfg, "header": job.execs[i][0], "cmds": job.execs[i][1], "expected": pl,
+                               "observed": steps.get(i, [])})
     return {"executions_with_model_prediction": checked, "matched": matched, "drift_samples": drifts}
 
 
